@@ -288,7 +288,7 @@ template <class T> static void check_tau(Ctx& ctx, T tau, T es) {
   const int ti = Tr<T>::idx;
   const bool prolate = es < 0;
   auto FAIL = [&](const std::string& kind0, const std::string& msg, bool inverse) {
-    // failures of the INVERSE for es < 0 form their own class (known finding: tauf uses 1 - es^2 for e^2 < 0)
+    // failures of the INVERSE for es < 0 form their own class (found here: tauf used 1 - es^2 for e^2 < 0; fixed in /repo abbb27b)
     std::string kind = kind0 + (inverse && prolate ? "-prolate" : "");
     ctx.fail(std::string(Tr<T>::name()) + "." + kind + "@" + hx(tau) + "," + hx(es), msg + " [tau = " + hxd(tau) + ", es = " + hxd(es) + "]",
              {{"kind", kind}, {"type", Tr<T>::name()}, {"tau", hx(tau)}, {"es", hx(es)}, {"es_sign", prolate ? "negative" : "nonnegative"}});
@@ -324,7 +324,7 @@ template <class T> static void check_tau(Ctx& ctx, T tau, T es) {
   if (tau != 0 && std::isfinite(tp) && fabsq((f128)tp) >= minn && std::fabs(tau) >= std::numeric_limits<T>::min() * 1024) {
     T back = Math::tauf<T>(tp, es);
     double e = (double)(fabsq((f128)back - (f128)tau) / fabsq((f128)tau) / ep) / cond; if (!(back == back)) e = INFINITY;
-    if (!prolate) track(ti, W_TAURT, e, tau, es);
+    track(ti, W_TAURT, e, tau, es);
     if (!(e <= TOL_TAU_EPS)) FAIL("tauf-roundtrip", "tauf(taupf(tau)) = " + V(back) + " error " + fmt(e) + " eps x cond " + fmt(cond), true);
   }
   // tauf value at the lattice point itself
@@ -334,7 +334,7 @@ template <class T> static void check_tau(Ctx& ctx, T tau, T es) {
     if (isnanq(tfR)) ctx.count("tauf_reference_newton_did_not_converge");
     else {
       double e = (double)(fabsq((f128)tf - tfR) / fabsq(tfR) / ep) / cond; if (!(tf == tf)) e = INFINITY;
-      if (!prolate) track(ti, W_TAUF, e, tau, es);
+      track(ti, W_TAUF, e, tau, es);
       if (!(e <= TOL_TAU_EPS)) FAIL("tauf-accuracy", "tauf = " + V(tf) + " reference " + q2s(tfR) + " error " + fmt(e) + " eps x cond " + fmt(cond), true);
     }
   }
